@@ -47,7 +47,9 @@ class Result:
 
 class SubCheck:
     def __init__(self, name, strategy, evaluate, quick, thorough, enumerate_fn=None, workers=None,
-                 quick_s=75.0, thorough_s=900.0):
+                 quick_s=75.0, thorough_s=900.0, shrink=True, minimize=None):
+        self.shrink = shrink              # False: no Hypothesis shrink phase (expensive cases); see minimize
+        self.minimize = minimize          # (plan, fails: plan -> Violation|None) -> smaller failing plan
         self.name = name
         self.strategy = strategy          # (tier, ctx) -> hypothesis strategy   (None when enumerate_fn)
         self.evaluate = evaluate          # (plan, ctx) -> Result
@@ -153,6 +155,7 @@ def worker_main(prop, tier, w, nworkers, active, out_path, only=None):
         ignored = set()
         state = {"shrink_calls": 0, "failing": None}
         shrink_budget = 400 if tier == "quick" else 1500
+        shrink_s = 25.0 if tier == "quick" else 120.0
 
         def run_one(plan):
             """Evaluate one plan; returns normally on pass / known / ignored; raises Violation otherwise."""
@@ -213,11 +216,14 @@ def worker_main(prop, tier, w, nworkers, active, out_path, only=None):
                     return
                 if state["failing"] is not None:
                     state["shrink_calls"] += 1
-                    if state["shrink_calls"] > shrink_budget and plan_hash(plan) not in failed_hashes:
+                    if (state["shrink_calls"] > shrink_budget or time.time() - state["t_fail"] > shrink_s) \
+                            and plan_hash(plan) not in failed_hashes:
                         return  # stop the shrinker: only plans already seen failing still fail
                 try:
                     run_one(plan)
                 except Violation as v:
+                    if state["failing"] is None:
+                        state["t_fail"] = time.time()
                     state["failing"] = v
                     failed_hashes.add(plan_hash(plan))
                     v.plan = plan
@@ -228,13 +234,28 @@ def worker_main(prop, tier, w, nworkers, active, out_path, only=None):
                             derandomize=False, print_blob=False,
                             suppress_health_check=[HealthCheck.too_slow, HealthCheck.data_too_large,
                                                    HealthCheck.large_base_example],
-                            phases=(Phase.generate, Phase.shrink))(test)
+                            phases=(Phase.generate, Phase.shrink) if sub.shrink else (Phase.generate,))(test)
             test = hypothesis.seed(derive_seed(seed0, prop, sub.name, w, rnd))(test)
             try:
                 test()
                 break
             except Violation as v:
                 b = "%s:%s" % (sub.name, v.bucket)
+                if sub.minimize is not None:
+                    def fails(p, _bucket=v.bucket):
+                        try:
+                            sub.evaluate(p, ctx)
+                        except Violation as v2:
+                            return v2 if v2.bucket == _bucket else None
+                        return None
+                    try:
+                        small = sub.minimize(v.plan, fails)
+                        v2 = fails(small)
+                        if v2 is not None:
+                            v2.plan = small
+                            v = v2
+                    except Exception:
+                        res["errors"].append({"subcheck": sub.name, "trace": traceback.format_exc()[-4000:]})
                 ignored.add(b)
                 res["violations"].append({"subcheck": sub.name, "bucket": b, "clause": v.clause,
                                           "detail": v.detail[:2000], "plan": v.plan})
